@@ -605,4 +605,16 @@ theorem C14_scope_dependence_witness :
     (∀ cx e, Expr.toks cx (.cast e .isize) = Expr.toks cx e ++ ["as", "isize"]) :=
   ⟨rfl, fun _ _ => by simp [Expr.toks, IntTy.tok]⟩
 
+/-- The hypothesis of `C14_vocabulary` holds for every impl without a `crate = ..` option, and for every option whose
+path has a segment (what syn parses) — e.g. `crate = zeroize_`, `crate = ::a::b`. -/
+example (inp : Input) (im : Impl) (h : im.trait.crate_ = none) : Ctx.PathOK ⟨inp, im.trait⟩ := by
+  intro p hp; simp [h] at hp
+
+example (inp : Input) (im : Impl) (l : Bool) (i : Ident) (rest : List Ident) (a : Option (Nat × Toks))
+    (h : im.trait.crate_ = some ⟨l, i :: rest, a⟩) : Ctx.PathOK ⟨inp, im.trait⟩ := by
+  intro p hp
+  simp only [h, Option.some.injEq] at hp
+  subst hp
+  exact .inr (by simp)
+
 end DW
